@@ -38,6 +38,21 @@ Definition render_cmd (c : cmd) : string :=
   ++ render_slots (cm_slots c) ++ "0,0,0,0," ++ decZ (cm_grid c) ++ "," ++ decZ (cm_site c)
   ++ ",1,""" ++ cm_sel c ++ """,0," ++ decZ (cm_arm c) ++ ");".
 
+(** the second spelling of the same command: every used slot holds a whole number of microlitres and is
+    written as a plain integer ("5" instead of "5.0"; what the library writes for per-tip volumes given as a
+    list of Python ints).  Meant for slots that are multiples of 100 hundredths. *)
+Fixpoint render_slots_int (l : list (option Z)) : string :=
+  match l with
+  | [] => ""
+  | Some h :: r => """" ++ decZ (h / 100) ++ """," ++ render_slots_int r
+  | None :: r => "0," ++ render_slots_int r
+  end.
+
+Definition render_cmd_int (c : cmd) : string :=
+  "B;" ++ cm_kind c ++ "(" ++ decZ (cm_mask c) ++ ",""" ++ cm_lc c ++ ""","
+  ++ render_slots_int (cm_slots c) ++ "0,0,0,0," ++ decZ (cm_grid c) ++ "," ++ decZ (cm_site c)
+  ++ ",1,""" ++ cm_sel c ++ """,0," ++ decZ (cm_arm c) ++ ");".
+
 (* ------------------------------------------------------------------ decoder *)
 
 (** the tips of a mask: indices 0..7 of the set bits, ascending (index i = tip i+1 = value 2^i) *)
